@@ -332,6 +332,7 @@ func init() {
 			}
 		}
 		jobs = append(jobs, vx.Job{Scenario: "udp.route", Weight: 6})
+		jobs = append(jobs, vx.Job{Scenario: "udp.route", Params: vx.P("sameport", "1"), Weight: 5})
 		for i := range jobs {
 			jobs[i].BudgetS = b(100, 900)
 		}
